@@ -84,7 +84,7 @@ def logdet_ref(ctx, ref):
 
 def check_linalg_dispatch(ctx, op, ref):
     n = ref.shape[-1]
-    B = ctx.leaf("B", (n, 2))
+    B = ctx.leaf("rhsB", (n, 2))
     attempt(ctx, "linalg.solve", lambda: check_solve(ctx, torch.linalg.solve(op, B), ref, B, "torch.linalg.solve"))
     attempt(ctx, "solve", lambda: check_solve(ctx, op.solve(B), ref, B, "method.solve"))
     def inv():
